@@ -154,6 +154,14 @@ CHECKS["C13"] = dict(
     ref="DESIGN.md §5 C13",
 )
 
+CHECKS["C17"] = dict(
+    level="exploration",
+    text="Runtime monitoring of WSDL generation and of the real SOAP client at a recording boundary: per seeded WSDL 1.1 definition (1-4 operations, document/rpc, parts by element or type, optional header and fault, inline or imported schema, one-way) the generated service classes are read, a request is built from a plain dictionary and sent through Client with a recording transport that answers with a harness-written response or SOAP fault; judged against expectations computed from the harness IR: service configuration (style, location, transport, SOAPAction, input/output), exactly one POST to the endpoint with content-type and SOAPAction headers and the user's headers, the infoset of the posted envelope (Header first, body parts with the prescribed names and namespaces), and the infoset of the parsed result against the response fed in. Held on the executions produced.",
+    note="Trusted: vf/wsdlgen.py rules for literal bindings (stated in ASSUMPTIONS of vf/props/c17.py), lxml for reading envelopes, the requests stand-in is never called. An empty soapAction is not judged. The rpc response wrapper is named after the output message, as the generated output class declares.",
+    technique="runtime monitoring: recorded client/transport boundary + reference envelopes from an independent IR",
+    ref="DESIGN.md §5 C17",
+)
+
 FIX_COMMITS = []  # guarded hook commits in /repo (none: all hooks are installed from the harness side)
 
 
